@@ -14,6 +14,10 @@ func genC16(p *Plan, r *RNG) {
 		genC16OnControl(p, r)
 		return
 	}
+	if r.Chance(1, 8) {
+		genC16SlowControl(p, r)
+		return
+	}
 	baseSrvConfig(p, r)
 	p.Flavor = "tcprelay"
 	p.Cfg.Listener = "tcp"
@@ -231,4 +235,54 @@ func genC16OnControl(p *Plan, r *RNG) {
 	p.Ops = append(p.Ops, Op{Actor: "", Kind: "wait", At: gap(40 * sec)})
 	p.Ops = append(p.Ops, Op{Actor: "c1", Kind: "binding", At: gap(500 * ms)})
 	p.QuietNS = 10 * sec
+}
+
+// genC16SlowControl: a client with a TCP allocation stops reading its control connection while
+// peers keep connecting to its relayed address. The ConnectionAttempt indications fill that
+// connection's window and the writer blocks - which is that client's business only: another
+// client of the same listener goes on being served (Allocate, Connect, ConnectionBind, bytes).
+func genC16SlowControl(p *Plan, r *RNG) {
+	baseSrvConfig(p, r)
+	p.Flavor = "tcprelay-slow-control"
+	p.Cfg.Listener = "tcp"
+	p.Cfg.Extra = map[string]int64{"tcp_peers": 1}
+	p.Cfg.PermTimeoutS = r.PickInt([]int{0, 600})
+	p.Cfg.AllocLifeS = r.PickInt([]int{0, 600})
+	p.Clients = []ClientSpec{{ID: "c1", Addr: "10.0.1.1:4000", User: "u1", Pass: "pw-one"}, {ID: "c2", Addr: "10.0.1.2:4013", User: "u2", Pass: "pw-two"}}
+	p.Peers = []PeerSpec{{ID: "p1", Addr: "10.0.2.1:5000"}, {ID: "p2", Addr: "10.0.2.2:5017"}}
+	p.Streams = []StreamCut{{Conn: "srv>*", Window: r.PickInt([]int{48, 100, 300, 1024})}}
+	add := func(o Op) { p.Ops = append(p.Ops, o) }
+	add(Op{Actor: "c1", Kind: "allocate", At: gap(int64(r.Range(1, 200)) * ms), A: OpArgs{Lifetime: -1, Transport: "tcp"}})
+	add(Op{Actor: "c1", Kind: "createperm", At: gap(int64(r.Range(50, 300)) * ms), A: OpArgs{Peer: p.Peers[0].Addr}})
+	early := r.Chance(1, 2)
+	if early {
+		add(Op{Actor: "c2", Kind: "allocate", At: gap(int64(r.Range(50, 300)) * ms), A: OpArgs{Lifetime: -1, Transport: "tcp"}})
+	}
+	add(Op{Actor: "c1", Kind: "tcp_pause", At: gap(int64(r.Range(100, 400)) * ms)})
+	for k := r.Range(2, 30); k > 0; k-- {
+		add(Op{Actor: "p1", Kind: "peer_connect", At: gap(int64(r.Range(1, 200)) * ms), A: OpArgs{Target: "c1", N: 0}})
+	}
+	// the other client's whole life while the first one's control connection is shut
+	if !early {
+		add(Op{Actor: "c2", Kind: "allocate", At: gap(int64(r.Range(50, 300)) * ms), A: OpArgs{Lifetime: -1, Transport: "tcp"}})
+	}
+	add(Op{Actor: "c2", Kind: "connect", At: gap(int64(r.Range(100, 500)) * ms), A: OpArgs{Peer: p.Peers[1].Addr}})
+	add(Op{Actor: "c2", Kind: "connbind", At: gap(int64(r.Range(100, 500)) * ms), A: OpArgs{N: 0}})
+	for i := r.Range(1, 4); i > 0; i-- {
+		if r.Chance(1, 2) {
+			add(Op{Actor: "c2", Kind: "data_send", At: gap(int64(r.Range(50, 500)) * ms), A: OpArgs{N: 0, Len: r.PickInt([]int{1, 100, 5000})}})
+		} else {
+			add(Op{Actor: "p2", Kind: "peer_data", At: gap(int64(r.Range(50, 500)) * ms), A: OpArgs{N: 0, Len: r.PickInt([]int{1, 100, 5000})}})
+		}
+	}
+	add(Op{Actor: "c2", Kind: "binding", At: gap(300 * ms)})
+	add(Op{Actor: "c1", Kind: "tcp_resume", At: gap(r.PickI64([]int64{300 * ms, 6 * sec, 35 * sec}))})
+	if r.Chance(1, 2) {
+		// the first client picks up one of the connections it was told about, if still in time
+		add(Op{Actor: "c1", Kind: "connbind", At: gap(int64(r.Range(100, 500)) * ms), A: OpArgs{N: 0}})
+		add(Op{Actor: "p1", Kind: "peer_data", At: gap(int64(r.Range(50, 500)) * ms), A: OpArgs{N: 0, Len: 100}})
+	}
+	add(Op{Actor: "c1", Kind: "binding", At: gap(500 * ms)})
+	add(Op{Actor: "c2", Kind: "binding", At: gap(200 * ms)})
+	p.QuietNS = 40 * sec
 }
